@@ -322,6 +322,7 @@ func (e *Explorer) worker(id int) {
 		if i.tc.n > 2_000_000 {
 			i.tc = newTctx()
 			i.slv.ctx = i.tc
+			i.fpMemo = nil
 		}
 	}
 	_ = id
